@@ -9,7 +9,12 @@ the #assert / unused-define errors were looked at) is refuted there.
 Streams (implementation = harness/src/bin/loud.rs on the crate built from the tree under test, and the real binary):
   corpus    directed regression inputs tools/c03_corpus/*.json (witnesses of F1 F2 F28 F29 F30 F31 F33), library, driver
             and real binary, debug and release
-  library   G-mutate: 1..8-edit token-level mutants of every tests/**/*.asm entry and of generated programs
+  library   directed family (the full product on every run): zero-bit-wide items (rule `=> 0`0`, empty asm block, `#d 0`0`,
+            `#d ""`, `#res 0`, `#align` at an aligned position, label/constant only) and their 1-bit neighbours x where the
+            item lands (bank without outp / without size, filled bank, default bank after a #bankdef, very end of a sized
+            bank, past the end via #addr/#align, unaligned, zero-sized bank) x labels before/after x what follows; a share of
+            it also goes through the driver and the real binary.
+            G-mutate: 1..8-edit token-level mutants of every tests/**/*.asm entry and of generated programs
             (generators of c13_gen, c06, c05 + a cascading-size family) x budgets {1,2,3,10} x both debug switches
             x --debug-iters x defines (declared constants, labels, undeclared names): asm::assemble on a mock file server
   driver    driver::drive on a mock file server that logs writes: mutants and valid programs x 1..3 output groups x
@@ -28,7 +33,8 @@ from concurrent.futures import ThreadPoolExecutor
 import vlib
 import c03_gen as g
 
-RULE = ("library: every tests/**/*.asm entry unmutated + token-level mutants (1..8 edits out of delete/duplicate/swap/replace token, spliced "
+RULE = ("library: directed zero-size family (18 items x 20 bank situations x 4 label layouts x 3 continuations, all of them on every run); "
+        "every tests/**/*.asm entry unmutated + token-level mutants (1..8 edits out of delete/duplicate/swap/replace token, spliced "
         "line of another file, non-ASCII character as own token / inside an identifier or number / inside a comment or string, unbalanced "
         "bracket, deleted/duplicated line) of the corpus and of generated programs, each with a random budget in {1,2,3,10}, both debug "
         "switches, --debug-iters (5%), 0..3 defines; non-trivial = distinct (input bytes, options) with at least one edit or a non-default "
@@ -161,6 +167,12 @@ def build_library_cases(chk, bases):
                 fm[entry] = g.raw_bytes(r, fm[entry], r.range(1, 2))
                 kinds = kinds + ["raw_bytes"]
             cases.append({"base": label, "files": fm, "entry": entry, "edits": kinds, "opts": options(r, text)})
+    zr = rng.fork("zero")
+    for (label, files, entry) in g.zero_size_family():
+        o = options(zr, "")
+        o["defines"] = []
+        o["debug_iters"] = False
+        cases.append({"base": label, "files": files, "entry": entry, "edits": [], "opts": o, "inline_all": True, "family": "zero"})
     gr = rng.fork("generated")
     for i in range(ngen):
         label, files, entry = g.generated_base(gr)
@@ -209,6 +221,10 @@ def stream_library(chk, lim, bins, bases, known):
         for k in c["edits"]:
             dist["edit_" + k] = dist.get("edit_" + k, 0) + 1
         dist["mutants" if c["edits"] else "unmutated"] += 1
+        if c.get("family") == "zero":
+            dist["zero_size_family"] = dist.get("zero_size_family", 0) + 1
+            if d.get("status") == "ok":
+                dist["zero_size_family_ok"] = dist.get("zero_size_family_ok", 0) + 1
         dist["budget_%d" % c["opts"]["budget"]] = dist.get("budget_%d" % c["opts"]["budget"], 0) + 1
         if c["opts"]["defines"]:
             dist["with_defines"] = dist.get("with_defines", 0) + 1
@@ -241,7 +257,7 @@ def stream_library(chk, lim, bins, bases, known):
             for ch, key in (("a", "site_assert"), ("c", "site_converge"), ("u", "site_unused_define"), ("n", "site_no_match"), ("f", "site_failed_to_resolve")):
                 if ch in d.get("K", ""):
                     dist[key] += 1
-            if c["edits"] or c["opts"]["budget"] != 10 or c["opts"]["defines"] or not c["opts"]["static"] or not c["opts"]["matcher"]:
+            if c["edits"] or c.get("family") or c["opts"]["budget"] != 10 or c["opts"]["defines"] or not c["opts"]["static"] or not c["opts"]["matcher"]:
                 chk.nontriv(("lib", hash(lines[ci])))
         if ci % 2500 == 7:
             chk.sample({"stream": "library", "base": c["base"], "edits": c["edits"], "options": c["opts"], "impl": d["raw"][:200]})
@@ -272,6 +288,14 @@ def build_driver_cases(chk, bases, lib_cases, lib_out, formats):
             cmd.inputs = [c["entry"], second]
             c = dict(c, files=fm, inline_all=c.get("inline_all"), mutated=c["entry"])
         cases.append(dict(c, cmd=cmd, faults=[], stream="driver"))
+    zr = chk.rng.fork("driver-zero")
+    zero = [i for i, c in enumerate(lib_cases) if c.get("family") == "zero"]
+    for i in zr.shuffle(zero)[:(1200 if quick else len(zero))]:
+        c = lib_cases[i]
+        cmd = g.gen_cmd(zr, formats, "", c["entry"])
+        cmd.defines, cmd.help, cmd.version, cmd.debug_iters = [], False, False, False
+        cmd.budget = lib_cases[i]["opts"]["budget"]
+        cases.append(dict(c, cmd=cmd, faults=[], stream="driver", zero=True))
     # single permanent faults: valid programs (so that without the fault the run succeeds) x each input file x each output
     fr = chk.rng.fork("fault")
     n_fault_bases = 160 if quick else 1200
@@ -473,6 +497,9 @@ def stream_real(chk, lim, real, drv_cases, drv_out, corpus_cases, known):
     usable = [i for i, c in enumerate(drv_cases) if c["stream"] == "driver" and on_disk(c) and not c["cmd"].debug_iters]
     for i in rng.shuffle(usable)[:n_plain]:
         jobs.append((drv_cases[i], drv_cases[i]["cmd"], None, [], "plain", rng.choice(["debug", "release"])))
+    zero = [i for i, c in enumerate(drv_cases) if c.get("zero")]
+    for i in rng.shuffle(zero)[:(400 if quick else 3000)]:
+        jobs.append((drv_cases[i], drv_cases[i]["cmd"], None, [], "zero", rng.choice(["debug", "release"])))
     okf = [i for i, c in enumerate(drv_cases) if c["stream"] == "fault" and not c["faults"] and on_disk(c) and drv_out[i].get("status") == "OK"]
     for i in rng.shuffle(okf)[:n_fault_bases]:
         for (what, prep, cmd2, unw) in real_faults(rng, drv_cases[i], root_is_root):
@@ -485,7 +512,7 @@ def stream_real(chk, lim, real, drv_cases, drv_out, corpus_cases, known):
                           stdout_to=io.get("stdout"), stderr_to=io.get("stderr"))
     with ThreadPoolExecutor(vlib.NCPU) as ex:
         results = list(ex.map(work, range(len(jobs))))
-    dist = {"exit0": 0, "exit1": 0, "abnormal": 0, "corpus": 0, "plain": 0, "fault": 0, "stdio": 0, "argv": 0, "fault_made_it_fail": 0, "c19_class": 0}
+    dist = {"exit0": 0, "exit1": 0, "abnormal": 0, "corpus": 0, "plain": 0, "fault": 0, "stdio": 0, "argv": 0, "zero": 0, "fault_made_it_fail": 0, "c19_class": 0}
     for k, (job, res) in enumerate(zip(jobs, results)):
         c, cmd, prep, unw, what, prof = job[:6]
         io = job[6] if len(job) > 6 else {}
